@@ -164,6 +164,11 @@ func Specs() []TypeSpec {
 				{"expressions": []any{map[string]any{"expression": "Subject.ID == 'bob'", "message": "o1"}}},
 				{"expressions": []any{map[string]any{"expression": "Request.Method == 'GET'", "message": "o2"}}},
 				{"expressions": []any{map[string]any{"expression": "Subject.ID != 'alice' && Subject.ID != 'bob'", "message": "o3"}}},
+				// a function of heimdall's own CEL library that builds something when it is evaluated
+				{"expressions": []any{map[string]any{
+					"expression": "Request.ClientIPAddresses.all(ip, ip in networks(['127.0.0.0/8', '10.0.0.0/8'])) && Subject.ID != 'carol'",
+					"message":    "o4",
+				}}},
 			},
 			Subjects: []string{"alice", "bob", "carol"},
 		},
@@ -198,7 +203,7 @@ func Specs() []TypeSpec {
 					"url": "{S}/ctx", "method": "POST",
 					"headers": map[string]any{"Content-Type": "application/json", "X-Val": "{{ .Values.a }}"},
 				},
-				"payload":         `{"sub":"{{ .Subject.ID }}","v":"cat"}`,
+				"payload": `{"sub":"{{ .Subject.ID }}","v":"cat"}`,
 				// deliberately not in sorted order
 				"forward_headers": []any{"X-Fwd", "X-Also"},
 				"forward_cookies": []any{"c1", "b0"},
